@@ -27,7 +27,7 @@ RULE = ("probe = (pair in a random spelling, large, mode, very_readable) with op
 ASSUMPTIONS = ["thread schedules are sampled, not enumerated (distinct call/return orders are counted in the evidence)",
                "module-state drift (fingerprint of cm_colors.* module globals, function defaults, functools caches) is evidence, not a violation"]
 MUST_OBSERVE = {"any": ["fresh_observations", "history_observations", "bulk_position_observations", "repeat_observations", "thread_observations", "fingerprints_compared", "history_ops", "fresh_thread_observations"]}
-SIZES = {"quick": dict(probes=10, hist=2, rounds=1), "thorough": dict(probes=120, hist=4, rounds=6)}
+SIZES = {"quick": dict(probes=10, hist=2, rounds=2), "thorough": dict(probes=120, hist=4, rounds=8)}
 SHARD_TIMEOUT = {"quick": 900, "thorough": 7200}
 
 
@@ -397,7 +397,7 @@ def threads(shard, rec, lib, scratch):
                 if "cm_colors" not in code.co_filename:
                     return mon.DISABLE
                 counter[0] += 1
-                if counter[0] % 64 == 0:
+                if counter[0] % 200 == 0:
                     yields[0] += 1
                     time.sleep(0)
 
@@ -414,13 +414,13 @@ def threads(shard, rec, lib, scratch):
             pool = [make_probe(rnd, op=rnd.choice(["fix", "fix", "bulk", "label"])) for _ in range(3)]
             # ... plus pairs the default strategy cannot repair, asked for in relaxed mode (its fallbacks run long), and pairs
             # that need many default-mode steps: their executions overlap inside the strategies
-            for _k in range(2):
+            for _k in range(3):
                 hb = G.midtone_bg(rnd)
                 ht = tuple(rnd.choice([0, 51, 255, 230]) for _ in range(3))
                 pool.append({"op": "fix", "text": list(ht), "tk": "tuple", "bg": list(hb), "bk": "tuple", "large": False, "mode": 2, "vr": rnd.random() < 0.5,
                              "t": list(ht), "b": list(hb)})
-            for _k in range(3):
-                g = G.below(rnd, False, rnd.random() < 0.5, lo=0.25, hi=0.6)
+            for _k in range(4):
+                g = G.below(rnd, False, rnd.random() < 0.5, lo=0.2, hi=0.45)
                 if g:
                     pool.append({"op": "fix", "text": list(g[0]), "tk": "tuple", "bg": list(g[1]), "bk": "tuple", "large": False, "mode": 1, "vr": False,
                                  "t": list(g[0]), "b": list(g[1])})
